@@ -428,6 +428,7 @@ func (c *Case) checkRules(kind string, msg *spectypes.SSVMessage, dec *queue.Dec
 		if s.Cmp(new(big.Int).Add(curSlot, big.NewInt(1))) > 0 {
 			switch {
 			case what == "partial-sig":
+				// repaired by 6c728adc1 (earlyMessage guard in validatePartialSignatureMessage): must never fire again
 				c.violate("C09/partial-sig-slot-window-unchecked", fmt.Sprintf("accepted a partial signature message for slot %d while the current slot is %v", slot, curSlot))
 			case slot-curSlot.Uint64() >= 1<<61:
 				c.violate("C09/slot-window-wraparound-accepted", fmt.Sprintf("accepted a %s message for slot %d while the current slot is %v", what, slot, curSlot))
@@ -438,7 +439,8 @@ func (c *Case) checkRules(kind string, msg *spectypes.SSVMessage, dec *queue.Dec
 		if ttl, ok := ttlOf(role); ok {
 			lim := new(big.Int).Add(s, new(big.Int).SetUint64(ttl+1))
 			if curSlot.Cmp(lim) > 0 && what == "partial-sig" {
-				c.violate("C09/partial-sig-slot-window-unchecked", fmt.Sprintf("accepted a partial signature message for slot %d (role %d) at current slot %v", slot, role, curSlot))
+				// KNOWN finding: only the future side is guarded (repair 6c728adc1), the late side is not
+				c.violate("C09/partial-sig-late-slot-unchecked", fmt.Sprintf("accepted a partial signature message for slot %d (role %d) at current slot %v", slot, role, curSlot))
 			} else if curSlot.Cmp(lim) > 0 {
 				c.violate("C09/"+what+"-expired-slot-accepted", fmt.Sprintf("accepted a %s message for slot %d (role %d) at current slot %v", what, slot, role, curSlot))
 			}
